@@ -346,7 +346,7 @@ func (p *c26Pool) get(worker int) *mcLedger {
 	sl := p.slots[worker]
 	// superseded versions stay in the memtable and slow every prefix scan
 	// down: start over with a new ledger now and then
-	if sl != nil && sl.uses >= 64 {
+	if sl != nil && sl.uses >= 256 {
 		sl.L.Close()
 		sl = nil
 	}
@@ -860,8 +860,11 @@ func TestMC_C26(t *testing.T) {
 	}
 	cdepth := verifmc.Pick(c, 2, 3)
 	var ccfgs []*c26Cfg
-	// quick: layout 1,2,3 of every plan; thorough: four layouts per plan
+	// quick: one layout of four plans; thorough: four layouts of every plan
 	for i := 6; i < len(cfgs); i += len(layouts) / verifmc.Pick(c, 1, 4) {
+		if name := c26Plans[cfgs[i].Plan].Name; !c.Thorough() && (name == "firstRoundOfDayBefore" || name == "forcedStraddle21") {
+			continue
+		}
 		ccfgs = append(ccfgs, cfgs[i])
 	}
 	var points []c26Point
